@@ -180,3 +180,31 @@ Example pipes_example :
   let '(w2, p2, y2) := pfilter nat Z Z _ ex_fstep w1 p1 3%Z in
   (y1, y2) = (15%Z, 11%Z) /\ w2 = [(0%nat, 5%Z); (1%nat, 5%Z); (2%nat, 7%Z); (0%nat, 3%Z); (1%nat, 8%Z); (2%nat, 5%Z)].
 Proof. vm_compute. split; reflexivity. Qed.
+
+(* "invoking each stage exactly once per sample in pipeline order": with a call log as the world and stages
+   that append (identity, input) to it -- whatever else they compute -- one sample through ANY pipe appends
+   exactly the stage identities, each once, in pipeline order *)
+Section Logging.
+Variables Id S X : Type.
+Variable g : Id -> S -> X -> S * X.
+Definition logged (i : Id) (w : list (Id * X)) (s : S) (x : X) : list (Id * X) * S * X :=
+  let '(s', y) := g i s x in (w ++ [(i, x)], s', y).
+Lemma chain_logged w ls x :
+  exists tr, fst (fst (chain Id S X (list (Id * X)) logged w ls x)) = w ++ tr /\ map fst tr = map fst ls.
+Proof.
+  revert w x; induction ls as [|[i s] r IH]; intros w x; cbn [chain].
+  - exists []. rewrite app_nil_r. split; reflexivity.
+  - unfold logged at 1. destruct (g i s x) as [s' y].
+    destruct (IH (w ++ [(i, x)]) y) as (tr & E & M).
+    destruct (chain Id S X (list (Id * X)) logged (w ++ [(i, x)]) r y) as [[w2 r'] z]. cbn [fst] in *.
+    exists ((i, x) :: tr). rewrite E, <- app_assoc. split; [reflexivity|]. cbn. f_equal. exact M.
+Qed.
+Theorem each_stage_once_in_order w (p : pipe Id S) x :
+  exists tr, fst (fst (pfilter Id S X (list (Id * X)) logged w p x)) = w ++ tr /\
+             map fst tr = map fst (leaves Id S p).
+Proof.
+  pose proof (pfilter_flat Id S X (list (Id * X)) logged w p x) as H.
+  destruct (pfilter Id S X (list (Id * X)) logged w p x) as [[w' p'] y]. destruct H as [E _].
+  destruct (chain_logged w (leaves Id S p) x) as (tr & A & B). rewrite E in A. cbn [fst] in *. exists tr. split; assumption.
+Qed.
+End Logging.
